@@ -408,6 +408,29 @@ Theorem C09_cursor_order : (forall a, cursor_ltb a a = false) /\
   (forall a b, cursor_ltb a b = true \/ a = b \/ cursor_ltb b a = true).
 Proof. exact (conj cursor_ltb_irrefl (conj cursor_ltb_trans cursor_ltb_total)). Qed.
 
+(** ** Stage B: "paging visits each edge once" for the model the check runs — SerializeCursor /
+    DeserializeCursor with MaxCursorLength, int, string and struct (TimeBasedCursor) cursors — through
+    a forward-only or bidirectional connection forwards, a backward-only or bidirectional one
+    backwards.  [as_server_dir d a] is the field of a connection with Direction [d]
+    (RelayModelF.serve_dir, arguments the client does not write are absent). *)
+Theorem C09_walk_forward_exact_dir_codec :
+  forall (E : Type) (cur : E -> cursor) (k : kind) (a : app cursor E) edges S d,
+  app_ok cursor E cursor_ltb cur a edges S ->
+  (forall e, In e S -> kind_of (cur e) = k /\ cursor_ok (cur e)) ->
+  d = ForwardOnly \/ d = Bidirectional ->
+  forall n, 1 <= n ->
+  walk_forward E (as_server_dir cursor E cursor_ltb cur cursor_encode_f (cursor_decode k) d a) n (Datatypes.S (length S)) None = Done S.
+Proof. exact (fun E cur k a edges S d Happ Hcur Hd n Hn => walk_forward_dir_codec E cur k a edges S Happ Hcur d n Hd Hn). Qed.
+
+Theorem C09_walk_backward_exact_dir_codec :
+  forall (E : Type) (cur : E -> cursor) (k : kind) (a : app cursor E) edges S d,
+  app_ok cursor E cursor_ltb cur a edges S ->
+  (forall e, In e S -> kind_of (cur e) = k /\ cursor_ok (cur e)) ->
+  d = BackwardOnly \/ d = Bidirectional ->
+  forall n, 1 <= n ->
+  walk_backward E (as_server_dir cursor E cursor_ltb cur cursor_encode_f (cursor_decode k) d a) n (Datatypes.S (length S)) None = Done S.
+Proof. exact (fun E cur k a edges S d Happ Hcur Hd n Hn => walk_backward_dir_codec E cur k a edges S Happ Hcur d n Hd Hn). Qed.
+
 (** ** Stage B: promises, composed with the executor model of C02 and the idle handler of C15.
     RelayModel treats a promise as "will deliver a value or an error"; goroutines and the
     IdleHandler are outside it.  What it needs from them — a resolver answering through a promise
@@ -477,3 +500,5 @@ Print Assumptions C09_cursor_ok_time.
 Print Assumptions C09_cursor_order.
 Print Assumptions C09_promise_composes_with_executor.
 Print Assumptions C09_cost_bounds_page.
+Print Assumptions C09_walk_forward_exact_dir_codec.
+Print Assumptions C09_walk_backward_exact_dir_codec.
